@@ -655,3 +655,17 @@ func (k *Keyer) fwdLoad(al *ssa.Alloc) bool {
 	k.fwdOK[al] = ok
 	return ok
 }
+
+
+// callKeyPrefix: the prefix of the key of a call of fn: its name, or -- when fn merely forwards to
+// another function of the module (forwardedCall) -- that function's name, as the Keyer renders it.
+func callKeyPrefix(p *Prog, fn *ssa.Function) string {
+	for i := 0; i < 3 && fn != nil; i++ {
+		inner := forwardedCall(p, fn)
+		if inner == nil || inner.Call.StaticCallee() == nil {
+			break
+		}
+		fn = inner.Call.StaticCallee()
+	}
+	return shorten(fn.String()) + "("
+}
